@@ -10,6 +10,8 @@ def SPEC(tier):
                'saturation/luminosity on cube colours with s in [-1,3]. Non-trivial = distinct channels/lanes strictly inside the domain and a well-conditioned relation '
                '(hue bound <= 3.6 deg); class counters show both curve segments, the thresholds, all six sectors and both parities of Co')
     d['stages'][0].sources.append('props/C19_hsv_ycocg.cpp')
+    from vlib import Stage
+    d['stages'].append(Stage('opt-allhdr', list(d['stages'][0].sources), flags=list(d['stages'][0].flags) + ['-include', 'glm/ext.hpp'], scale=0.25))  # every GLM header seen first
     return d
 
 
